@@ -6,7 +6,7 @@ step of the WAL protocol preserves it; hence crash + recovery at any point is `G
 set_option linter.unusedSectionVars false
 namespace Eru.Cluster2
 open Eru.Cluster (ResAlg)
-variable {R : Type} [ResAlg R]
+variable {R : Type} [ResAlg R] {ex : Nat → Prop}
 
 /-! ### algebra -/
 theorem add_sub_cancel_left' (a b : R) : a + b - a = b := by
@@ -114,7 +114,7 @@ theorem runningCt_filter (cts : List Ct) (i j : Nat) (h : j ≠ i) :
       simp [List.filter_cons, h1, ih]
 
 /-! ### the handlers consume the invariant -/
-theorem handle_inv (s : St R) (e : Ev) (es : List Ev) (h : InvG s (e :: es)) : InvG (handle s e) es := by
+theorem handle_inv (s : St R) (e : Ev) (es : List Ev) (h : InvG ex s (e :: es)) : InvG ex (handle s e) es := by
   obtain ⟨hu, hm, hi, hn⟩ := h
   cases e with
   | alloc ns =>
@@ -127,7 +127,7 @@ theorem handle_inv (s : St R) (e : Ev) (es : List Ev) (h : InvG s (e :: es)) : I
         · left; simp [hc, h]
         · right; simpa [covered_cons, Ev.covers, hc] using h
     · intro m hmm; simpa [pendingProc_cons] using hm m hmm
-    · intro id h1 h2; simpa [pendingCreated_cons, Ev.isCreated] using hi id h1 h2
+    · intro id hne h1 h2; simpa [pendingCreated_cons, Ev.isCreated] using hi id hne h1 h2
   | processing n =>
     refine ⟨?_, ?_, ?_, hn⟩
     · intro k; exact (hu k).imp (fun h => h) (fun h => by simpa [covered_cons, Ev.covers] using h)
@@ -138,7 +138,7 @@ theorem handle_inv (s : St R) (e : Ev) (es : List Ev) (h : InvG s (e :: es)) : I
       rcases this with h | h
       · exact absurd h hmm.2
       · exact h
-    · intro id h1 h2; simpa [pendingCreated_cons, Ev.isCreated] using hi id h1 h2
+    · intro id hne h1 h2; simpa [pendingCreated_cons, Ev.isCreated] using hi id hne h1 h2
   | created id nd =>
     have hcov : ∀ k, covered (Ev.created id nd :: es) k = covered es k := by
       intro k; simp [covered_cons, Ev.covers]
@@ -161,30 +161,30 @@ theorem handle_inv (s : St R) (e : Ev) (es : List Ev) (h : InvG s (e :: es)) : I
             simp only [hk, this, if_false]; exact h
         · right; rw [← hcov]; exact h
       · intro m hmm; rw [← hpp]; exact hm m hmm
-      · intro j h1 h2
+      · intro j hne h1 h2
         rw [recorded_filter] at h1
         simp only [Bool.and_eq_true, bne_iff_ne, ne_eq] at h1
-        have hj := hi j h1.1 (by rw [← h2]; exact (runningCt_filter s.cts id j h1.2).symm)
+        have hj := hi j hne h1.1 (by rw [← h2]; exact (runningCt_filter s.cts id j h1.2).symm)
         simpa [pendingCreated_cons, Ev.isCreated, Ne.symm h1.2] using hj
       · exact List.Nodup.sublist (List.Sublist.map _ List.filter_sublist) hn
     · rename_i hnone
       refine ⟨?_, ?_, ?_, hn⟩
       · intro k; rw [← hcov]; exact hu k
       · intro m hmm; rw [← hpp]; exact hm m hmm
-      · intro j h1 h2
+      · intro j hne h1 h2
         have hr : recorded s j = true := h1
         have hji : j ≠ id := by
           intro hji; subst hji
           rw [recorded_false_of_find_none s j hnone] at hr; cases hr
-        have hj := hi j hr (by rw [← h2]; exact (runningCt_filter s.cts id j hji).symm)
+        have hj := hi j hne hr (by rw [← h2]; exact (runningCt_filter s.cts id j hji).symm)
         simpa [pendingCreated_cons, Ev.isCreated, Ne.symm hji] using hj
 
-theorem recoverL_inv (evs : List Ev) : ∀ (s : St R), InvG s evs → InvG (recoverL s evs) [] := by
+theorem recoverL_inv (evs : List Ev) : ∀ (s : St R), InvG ex s evs → InvG ex (recoverL s evs) [] := by
   induction evs with
   | nil => intro s h; exact h
   | cons e es ih => intro s h; exact ih _ (handle_inv s e es h)
 
-theorem good_of_inv_nil (s : St R) (h : InvG s []) : Good { s with wal := [] } := by
+theorem good_of_inv_nil (s : St R) (h : InvG ex s []) : Good ex { s with wal := [] } := by
   obtain ⟨hu, hm, hi, _⟩ := h
   refine ⟨?_, ?_, rfl, ?_⟩
   · intro n; rcases hu n with h | h
@@ -193,13 +193,13 @@ theorem good_of_inv_nil (s : St R) (h : InvG s []) : Good { s with wal := [] } :
   · cases hmk : s.markers with
     | nil => rfl
     | cons m rest => have := hm m (by rw [hmk]; simp); simp [pendingProc] at this
-  · intro id h1
+  · intro id hne h1
     cases h2 : runningCt s id with
     | true => exact h2
-    | false => have := hi id h1 h2; simp [pendingCreated] at this
+    | false => have := hi id hne h1 h2; simp [pendingCreated] at this
 
 /-- recovery from any state satisfying the invariant is `Good` -/
-theorem recover_good (s : St R) (h : Inv s) : Good (recover s) :=
+theorem recover_good (s : St R) (h : Inv ex s) : Good ex (recover s) :=
   good_of_inv_nil _ (recoverL_inv s.wal s h)
 
 end Eru.Cluster2
